@@ -473,6 +473,9 @@ func checkC14(p *Prog, r *Report) {
 	}
 	r.Floor("hand-written-marshalers-on-message-types", nMarsh, 2)
 
+	// D7 the stateless entry points do not modify the message (msgmut.go)
+	checkMessagesNotMutated(p, r, "C14", msgs)
+
 	// D6 field-level injectivity of the amino-JSON rendering: strings. encoding/json (which go-amino uses for strings) replaces every
 	// invalid UTF-8 byte by U+FFFD, and gogoproto's generated Unmarshal does not validate UTF-8, so two messages that differ only in
 	// invalid bytes of a string field are distinct on the wire (and in what handlers store) but have identical amino-JSON sign bytes —
